@@ -745,10 +745,12 @@ class ModelEval(Evaluator):
                     if hn is None or exc_matches(name, hn):
                         if h.name:
                             self.env[h.name] = Marker("excinst", name, ())
+                        handling = self.shared.setdefault("handling", [])
+                        handling.append(e)
                         try:
                             self.exec_block(h.body)
                         finally:
-                            pass
+                            handling.pop()
                         break
                 else:
                     self.exec_block(st.finalbody)
@@ -759,7 +761,10 @@ class ModelEval(Evaluator):
             return
         if isinstance(st, ast.Raise):
             if st.exc is None:
-                raise Raised("Exception", st, "re-raise")
+                handling = self.shared.get("handling") or []
+                if handling:
+                    raise handling[-1]          # bare `raise` inside a handler: the exception being handled
+                raise Raised("RuntimeError", st, "No active exception to reraise")
             v = self.ev(st.exc)
             if isinstance(v, Marker) and v.kind in ("exc", "excinst"):
                 raise Raised(v.data[0], st, " ".join(str(a) for a in (v.data[1] if len(v.data) > 1 else ()))[:120])
